@@ -22,6 +22,8 @@ SEED_HINTS = {
 @PRIOR@""",
     "H": """- Earlier rounds already produced the following changes for this property. Do NOT repeat them or close variants of them. Otherwise you are free: make whatever change a busy contributor could plausibly land in a pull request -- a refactor that subtly changes semantics, an optimisation that drops a step, a 'fix' for a different problem with a side effect, a clean-up of code that looked redundant but was not. Read the anchor code carefully first and pick the clause of the statement you find easiest to break INVISIBLY (reviewers must be unlikely to notice):
 @PRIOR@""",
+    "I": """- Earlier rounds already produced the following changes for this property. Do NOT repeat them or close variants of them. This time break the property from OUTSIDE the functions that implement the mechanism, or through a disagreement between two places that must agree: change a CALLER of the anchor functions (the argument it passes, the moment it calls, what it does with the result, a call it adds or drops); or make two sibling implementations disagree (pure-Python vs compiled where both exist, getone vs getmany path, idempotent vs transactional path, v0/v1 vs v2 format, request builder vs response parser, subscribe vs assign path); or change a declarative table / constant / default that the mechanism reads (a schema entry, an error class attribute, a config default, a class-level constant); or change what a *public* API method does before/after delegating to the mechanism. The anchor functions themselves should stay textually untouched if at all possible:
+@PRIOR@""",
 }
 SEED_HINT = None
 
@@ -34,6 +36,15 @@ NEUTRAL_STYLE = ("a third kind of clean-up than simple renames or extract-method
 
 
 NEUTRAL_STYLES = {
+    "T": ("a clean-up of PLUMBING rather than of algorithms, in TWO OR THREE places among the anchors and the code that feeds them: move a "
+          "unit conversion to an equivalent place (e.g. convert `x_ms / 1000` once in `__init__` into a seconds attribute and use that, or the "
+          "reverse; introduce a tiny helper for the conversion), rename timing locals/attributes so that their names say the unit, replace "
+          "`try/finally: x.close()` by `with` (or the reverse) where exactly equivalent, pass arguments by keyword instead of by position (or "
+          "the reverse) in calls to constructors/helpers of the package, give a parameter a default and drop the argument at call sites "
+          "that passed that same value, reorder keyword arguments, split a long `__init__` into the same assignments grouped differently, "
+          "replace a module-level alias (`A = B`) by an equivalent form only if identity (`A is B`) is preserved, turn a class-level "
+          "constant into a module-level one (or back) keeping its value, wrap a stream/buffer in a local variable before use, replace "
+          "`io.BytesIO(x)` + reads by equivalent reads on the same object. Keep every value, every call order and every object identity"),
     "S": ("a clean-up pull request as a maintainer would write it, touching TWO OR THREE of the anchor functions (prefer ones that earlier "
           "clean-ups are unlikely to have touched: small helpers, bookkeeping methods, callbacks, readers/writers of the record formats). Mix "
           "kinds: turn an `assert cond, msg` into `if not cond: raise AssertionError(msg)` or back; replace tuple unpacking by indexing or the "
